@@ -505,8 +505,22 @@ def check_padding(case, rec):
     rec.label(f"arity{n}")
 
 
+def fuzz_chunks(tier):
+    import os
+    seed = int(os.environ.get("VERIF_SEED", "1") or 1)
+    return [{"shard": k, "seed": seed, "tier": tier} for k in range(2 if tier == "quick" else 8)]
+
+
+def fuzz_expand(chunk):
+    from ..runner import fuzz_cases
+    runs = 100000 if chunk["tier"] == "quick" else 5000000
+    for data in fuzz_cases("c18", chunk["tier"], chunk["shard"], chunk["seed"], runs):
+        yield {"s": "".join(ALPHABET[b % len(ALPHABET)] for b in data[:12]), "near": True}
+
+
 def subchecks(tier):
     return [
+        Sub("parse-atheris", check_parse, chunks=fuzz_chunks, expand=fuzz_expand),
         Sub("pairs", check_pair, chunks=pair_chunks, expand=pair_expand, exhaustive=True),
         Sub("rpairs", check_pair, strategy=rpairs_strategy, examples=(8000, 200000), min_per_shard=500),
         Sub("immut", check_immut, strategy=immut_strategy, examples=(8000, 200000), min_per_shard=500),
